@@ -488,6 +488,8 @@ def t07_remap(run, fx):
 
 
 def check(run, fx, tier, floors=True):
+    import bsearch
+    bsearch.rule_bsearch(run, fx, "T07-BS", select=lambda b: b.file.startswith(('src/subset.rs', 'src/tables/glyf/subset.rs', 'src/cff/subset.rs', 'src/cff/cff2.rs')), floors=floors, floor_n=0)
     if floors or any(b.path.endswith("cff::charstring::convert_cff2_to_cff") for b in fx.bodies):
         # subsetting CFF2 to CFF re-emits every operator through From<VisitOp> for u8: the operator tables are part of "outlines are preserved"
         import rules_C18
